@@ -9,38 +9,59 @@ impl Error {
     pub fn internal<T>(desc: &str) -> (r: Result<T>) ensures r is Err { Err(Error::Internal) }
 }
 pub const WRONG_OFFSET: &'static str = "Wrong buffer offset detected";
-pub trait Converter<T> {
-    fn read_err(self, context: &str) -> Result<T>;
-    fn invalid_err(self, context: &str) -> Result<T>;
-    fn internal_err(self, context: &str) -> Result<T>;
+pub trait Converter<T>: Sized {
+    spec fn ok_spec(&self) -> bool;
+    spec fn val_spec(&self) -> T;
+    fn read_err(self, context: &str) -> (r: Result<T>)
+        ensures (r is Ok) == self.ok_spec(), r is Ok ==> r->Ok_0 == self.val_spec();
+    fn invalid_err(self, context: &str) -> (r: Result<T>)
+        ensures (r is Ok) == self.ok_spec(), r is Ok ==> r->Ok_0 == self.val_spec();
+    fn internal_err(self, context: &str) -> (r: Result<T>)
+        ensures (r is Ok) == self.ok_spec(), r is Ok ==> r->Ok_0 == self.val_spec();
 }
 impl<T, E> Converter<T> for std::result::Result<T, E> {
-    fn read_err(self, context: &str) -> Result<T> { match self { Ok(v) => Ok(v), Err(_) => Err(Error::Read) } }
-    fn invalid_err(self, context: &str) -> Result<T> { match self { Ok(v) => Ok(v), Err(_) => Err(Error::Invalid) } }
-    fn internal_err(self, context: &str) -> Result<T> { match self { Ok(v) => Ok(v), Err(_) => Err(Error::Internal) } }
+    open spec fn ok_spec(&self) -> bool { self is Ok }
+    open spec fn val_spec(&self) -> T { self->Ok_0 }
+    fn read_err(self, context: &str) -> (r: Result<T>) { match self { Ok(v) => Ok(v), Err(_) => Err(Error::Read) } }
+    fn invalid_err(self, context: &str) -> (r: Result<T>) { match self { Ok(v) => Ok(v), Err(_) => Err(Error::Invalid) } }
+    fn internal_err(self, context: &str) -> (r: Result<T>) { match self { Ok(v) => Ok(v), Err(_) => Err(Error::Internal) } }
 }
 impl<T> Converter<T> for Option<T> {
-    fn read_err(self, context: &str) -> Result<T> { match self { Some(v) => Ok(v), None => Err(Error::Read) } }
-    fn invalid_err(self, context: &str) -> Result<T> { match self { Some(v) => Ok(v), None => Err(Error::Invalid) } }
-    fn internal_err(self, context: &str) -> Result<T> { match self { Some(v) => Ok(v), None => Err(Error::Internal) } }
+    open spec fn ok_spec(&self) -> bool { self is Some }
+    open spec fn val_spec(&self) -> T { self->Some_0 }
+    fn read_err(self, context: &str) -> (r: Result<T>) { match self { Some(v) => Ok(v), None => Err(Error::Read) } }
+    fn invalid_err(self, context: &str) -> (r: Result<T>) { match self { Some(v) => Ok(v), None => Err(Error::Invalid) } }
+    fn internal_err(self, context: &str) -> (r: Result<T>) { match self { Some(v) => Ok(v), None => Err(Error::Internal) } }
 }
 
 // contract-only logical stream (PagedReader seen through its contract)
 pub struct LStream { pub data: Ghost<Seq<u8>>, pub pos: Ghost<int> }
 impl LStream {
     #[verifier::external_body]
-    pub fn read_exact(&mut self, buf: &mut [u8]) -> (r: std::result::Result<(), IoError>) { unimplemented!() }
+    pub fn read_exact(&mut self, buf: &mut [u8]) -> (r: std::result::Result<(), IoError>)
+        ensures final(self).data@ == old(self).data@, final(buf)@.len() == old(buf)@.len(),
+            match r {
+                Ok(_) => final(self).pos@ == old(self).pos@ + old(buf)@.len()
+                    && old(self).pos@ + old(buf)@.len() <= old(self).data@.len()
+                    && final(buf)@ =~= old(self).data@.subrange(old(self).pos@, old(self).pos@ + old(buf)@.len()),
+                Err(_) => true },
+    { unimplemented!() }
     #[verifier::external_body]
-    pub fn align(&mut self) -> (r: std::result::Result<(), IoError>) { unimplemented!() }
+    pub fn align(&mut self) -> (r: std::result::Result<(), IoError>)
+        ensures final(self).data@ == old(self).data@,
+            match r { Ok(_) => final(self).pos@ == up4(old(self).pos@), Err(_) => true },
+    { unimplemented!() }
 }
+pub open spec fn up4(p: int) -> int { if p % 4 == 0 { p } else { p + 4 - p % 4 } }
+pub open spec fn le16(d: Seq<u8>, at: int) -> int { d[at] as int + 256 * (d[at + 1] as int) }
 #[verifier::external_body]
 fn shim_le_u16(b: &[u8], lo: usize, hi: usize) -> (r: Result<u16>)
     requires lo + 2 == hi, hi <= b@.len()
-    ensures r is Ok, r->Ok_0 == vstd::bytes::spec_u16_from_le_bytes(b@.subrange(lo as int, hi as int))
+    ensures r is Ok, r->Ok_0 as int == le16(b@, lo as int)
 { Ok(u16::from_le_bytes([b[lo], b[lo+1]])) }
 
 #[verifier::external_body]
-fn shim_u16_from_le_arr(b: [u8; 2]) -> (r: u16) ensures r == vstd::bytes::spec_u16_from_le_bytes(b@) { u16::from_le_bytes(b) }
+fn shim_u16_from_le_arr(b: [u8; 2]) -> (r: u16) ensures r as int == le16(b@, 0) { u16::from_le_bytes(b) }
 pub enum PacketHeader {
     Index(IndexPacketHeader),
     Data(DataPacketHeader),
@@ -48,7 +69,16 @@ pub enum PacketHeader {
 }
 
 impl PacketHeader {
-    pub fn read(reader: &mut LStream) -> Result<Self> {
+    #[verifier::loop_isolation(false)]
+    pub fn read(reader: &mut LStream) -> (r: Result<Self>)
+        requires old(reader).pos@ >= 0
+        ensures final(reader).data@ == old(reader).data@,
+            match r {
+                Ok(PacketHeader::Index(h)) => final(reader).pos@ == old(reader).pos@ + 16 && h.packet_length as int == le16(old(reader).data@, old(reader).pos@ + 2) + 1 && old(reader).data@[old(reader).pos@] == 0u8,
+                Ok(PacketHeader::Data(h)) => final(reader).pos@ == old(reader).pos@ + 6 && h.packet_length as int == le16(old(reader).data@, old(reader).pos@ + 2) + 1 && old(reader).data@[old(reader).pos@] == 1u8,
+                Ok(PacketHeader::Ignored(h)) => final(reader).pos@ == old(reader).pos@ + 4 && h.packet_length as int == le16(old(reader).data@, old(reader).pos@ + 2) + 1 && old(reader).data@[old(reader).pos@] == 2u8,
+                Err(_) => true },
+    {
         // Read only first byte of header to indetify packet type
         let mut buffer = [0_u8; 1];
         reader
@@ -74,7 +104,12 @@ pub struct IndexPacketHeader {
 impl IndexPacketHeader {
     pub const ID: u8 = 0;
 
-    pub fn read(reader: &mut LStream) -> Result<Self> {
+    #[verifier::loop_isolation(false)]
+    pub fn read(reader: &mut LStream) -> (r: Result<Self>)
+        requires old(reader).pos@ >= 0
+        ensures final(reader).data@ == old(reader).data@,
+            match r { Ok(h) => final(reader).pos@ == old(reader).pos@ + 15 && h.packet_length as int == le16(old(reader).data@, old(reader).pos@ + 1) + 1, Err(_) => true },
+    {
         let mut buffer = [0_u8; 15];
         reader
             .read_exact(&mut buffer)
@@ -118,7 +153,12 @@ impl DataPacketHeader {
 
     pub const SIZE: usize = 6;
 
-    pub fn read(reader: &mut LStream) -> Result<Self> {
+    #[verifier::loop_isolation(false)]
+    pub fn read(reader: &mut LStream) -> (r: Result<Self>)
+        requires old(reader).pos@ >= 0
+        ensures final(reader).data@ == old(reader).data@,
+            match r { Ok(h) => final(reader).pos@ == old(reader).pos@ + 5 && h.packet_length as int == le16(old(reader).data@, old(reader).pos@ + 1) + 1, Err(_) => true },
+    {
         let mut buffer = [0_u8; 5];
         reader
             .read_exact(&mut buffer)
@@ -153,7 +193,12 @@ pub struct IgnoredPacketHeader {
 impl IgnoredPacketHeader {
     pub const ID: u8 = 2;
     #[verifier::external_body]
-    pub fn read(reader: &mut LStream) -> Result<Self> { unimplemented!() }
+    #[verifier::loop_isolation(false)]
+    pub fn read(reader: &mut LStream) -> (r: Result<Self>)
+        requires old(reader).pos@ >= 0
+        ensures final(reader).data@ == old(reader).data@,
+            match r { Ok(h) => final(reader).pos@ == old(reader).pos@ + 3 && h.packet_length as int == le16(old(reader).data@, old(reader).pos@ + 1) + 1, Err(_) => true },
+    { unimplemented!() }
 }
 
 pub enum RecordValue { Single(f32), Double(f64), ScaledInteger(i64), Integer(i64) }
@@ -184,7 +229,7 @@ impl BitPack {
 }
 pub type RawValues = Vec<RecordValue>;
 
-pub struct QueueReader<'a> {
+struct QueueReader<'a> {
     pc: PointCloud,
     reader: &'a mut LStream,
     buffer: Vec<u8>,
@@ -194,7 +239,10 @@ pub struct QueueReader<'a> {
 }
 
 impl<'a> QueueReader<'a> {
-    pub fn pop_point(&mut self, output: &mut RawValues) -> Result<()> {
+    #[verifier::loop_isolation(false)]
+    fn pop_point(&mut self, output: &mut RawValues) -> Result<()>
+        requires old(self).wf()
+    {
         output.clear();
         for i in 0..self.pc.prototype.len() {
             let value = self.queues[i]
@@ -206,7 +254,22 @@ impl<'a> QueueReader<'a> {
     }
 
     /// Reads the next packet from the compressed vector and decodes it into the queues.
-    pub fn advance(&mut self) -> Result<()> {
+    spec fn wf(&self) -> bool {
+        &&& self.reader.pos@ >= 0
+        &&& self.buffer_sizes@.len() == self.pc.prototype@.len()
+        &&& self.byte_streams@.len() == self.pc.prototype@.len()
+        &&& self.queues@.len() == self.pc.prototype@.len()
+    }
+    #[verifier::loop_isolation(false)]
+    fn advance(&mut self) -> (r: Result<()>)
+        requires old(self).wf()
+        ensures final(self).reader.data@ == old(self).reader.data@,
+            r is Ok ==> ({
+                let d = old(self).reader.data@; let p = old(self).reader.pos@;
+                // C03: a non-data packet is skipped by exactly its declared length
+                (d[p] == 0u8 || d[p] == 2u8) ==> final(self).reader.pos@ == up4(p + le16(d, p + 2) + 1)
+            }),
+    {
         let packet_header = PacketHeader::read(self.reader)?;
         match packet_header {
             PacketHeader::Index(header) => {
@@ -229,7 +292,14 @@ impl<'a> QueueReader<'a> {
                 }
 
                 // Read byte stream sizes
-                for i in 0..self.buffer_sizes.len() {
+                for i in 0..self.buffer_sizes.len()
+                    invariant
+                        self.reader.data@ == old(self).reader.data@,
+                        self.buffer_sizes@.len() == self.pc.prototype@.len(),
+                        self.byte_streams@.len() == self.pc.prototype@.len(),
+                        self.queues@.len() == self.pc.prototype@.len(),
+                        old(self).reader.data@[old(self).reader.pos@] == 1u8,
+                {
                     let mut buf = [0_u8; 2];
                     self.reader
                         .read_exact(&mut buf)
@@ -239,7 +309,14 @@ impl<'a> QueueReader<'a> {
                 }
 
                 // Read byte streams into memory
-                for i in 0..self.buffer_sizes.len() {
+                for i in 0..self.buffer_sizes.len()
+                    invariant
+                        self.reader.data@ == old(self).reader.data@,
+                        self.buffer_sizes@.len() == self.pc.prototype@.len(),
+                        self.byte_streams@.len() == self.pc.prototype@.len(),
+                        self.queues@.len() == self.pc.prototype@.len(),
+                        old(self).reader.data@[old(self).reader.pos@] == 1u8,
+                {
                     let bs = &self.buffer_sizes[i];
                     self.buffer.resize(*bs, 0_u8);
                     self.reader
@@ -249,7 +326,14 @@ impl<'a> QueueReader<'a> {
                 }
 
                 let mut min_queue_size = usize::MAX;
-                for i in 0..self.byte_streams.len() {
+                for i in 0..self.byte_streams.len()
+                    invariant
+                        self.reader.data@ == old(self).reader.data@,
+                        self.buffer_sizes@.len() == self.pc.prototype@.len(),
+                        self.byte_streams@.len() == self.pc.prototype@.len(),
+                        self.queues@.len() == self.pc.prototype@.len(),
+                        old(self).reader.data@[old(self).reader.pos@] == 1u8,
+                {
                     let bs = &self.byte_streams[i];
                     let bit_size = self.pc.prototype[i].data_type.bit_size();
                     // We can only check records with a non-zero bit size
@@ -273,7 +357,12 @@ impl<'a> QueueReader<'a> {
     }
 
     /// Extracts raw values from byte streams into queues.
-    fn parse_byte_streams(&mut self, min_queue_size: usize) -> Result<()> {
+    #[verifier::external_body]
+    fn parse_byte_streams(&mut self, min_queue_size: usize) -> (r: Result<()>)
+        ensures final(self).reader.data@ == old(self).reader.data@, final(self).reader.pos@ == old(self).reader.pos@,
+            final(self).buffer_sizes@.len() == old(self).buffer_sizes@.len(), final(self).byte_streams@.len() == old(self).byte_streams@.len(),
+            final(self).queues@.len() == old(self).queues@.len(), final(self).pc.prototype@.len() == old(self).pc.prototype@.len(),
+    {
         for i in 0..self.pc.prototype.len() {
             let r = &self.pc.prototype[i];
             match r.data_type {
